@@ -87,9 +87,10 @@ EXPECTED_CLASS = {
     "LHS": "LHSDeme",
     "SOB": "SobolDeme",
     "STUB": "StubDeme",
+    "STUBEA": "StubDeme2",
 }
 POP_SIZE = {e: 6 for e in POP_ENGINES}
-POP_SIZE.update({"LHS": 5, "SOB": 4, "STUB": 3})
+POP_SIZE.update({"LHS": 5, "SOB": 4, "STUB": 3, "STUBEA": 3})
 
 _CENTER = np.array([0.3, 0.6, 0.45, 0.55, 0.35, 0.65, 0.4, 0.5])
 
@@ -421,6 +422,13 @@ class StubLevelConfig(BaseLevelConfig):
         self.step = step
 
 
+class StubEAConfig(EALevelConfig):
+    """A user config class DERIVED from a shipped one, registered for its own deme class."""
+
+    def __init__(self, problem, lsc, pop_size=3, step=0.01):
+        super().__init__(pop_size=pop_size, problem=problem, lsc=lsc, generations=1, step=step)
+
+
 class StubDeme(AbstractDeme):
     """A tiny deterministic hill-walker: evaluates pop_size points around its seed (or the box
     centre for a root), then each metaepoch shifts the population towards the best."""
@@ -451,6 +459,10 @@ class StubDeme(AbstractDeme):
         self._history.append([pop])
         if tree._gsc(tree) or self._lsc(self):
             self._active = False
+
+
+class StubDeme2(StubDeme):
+    pass
 
 
 # --------------------------------------------------------------------------------------
@@ -497,6 +509,8 @@ def make_level(engine, problem, lsc, gens, box, desc):
         return SobolLevelConfig(problem=problem, lsc=lsc, pop_size=4)
     if engine == "STUB":
         return StubLevelConfig(problem=problem, lsc=lsc)
+    if engine == "STUBEA":
+        return StubEAConfig(problem=problem, lsc=lsc)
     raise KeyError(engine)
 
 
@@ -704,8 +718,8 @@ class World:
             opts["hibernation"] = True
         self.hib = bool(d["hib"])
         extra = {}
-        if "STUB" in self.engines:
-            extra["config_class_to_deme_class"] = {StubLevelConfig: StubDeme}
+        if "STUB" in self.engines or "STUBEA" in self.engines:
+            extra["config_class_to_deme_class"] = {StubLevelConfig: StubDeme, StubEAConfig: StubDeme2}
         self.config = TreeConfig(levels, self.gsc, ProbeSprout(sm, self), options=opts, **extra)
         self.constructing = True
         self.tree = DemeTree(self.config)
